@@ -11,6 +11,7 @@ import (
 	"strings"
 	"sync"
 	"testing"
+	"time"
 
 	"github.com/spikeekips/mitum/base"
 	"github.com/spikeekips/mitum/isaac"
@@ -702,10 +703,12 @@ func c18Run(t ev.TB, r *ev.Rec, w *c18World, c c18Case) (classes []string, nontr
 	return classes, nontrivial
 }
 
-func c18ReplayCase(path string) (c c18Case, found bool, _ error) {
+// c18ReplayCases reads every "C18CASE {json}" line of a journal (the driver keeps the last 50 lines). All of them
+// are replayed in order, because a worker goroutine of an earlier failed Build may be the one that panics.
+func c18ReplayCases(path string) (cs []c18Case, _ error) {
 	f, err := os.Open(path)
 	if err != nil {
-		return c, false, err
+		return nil, err
 	}
 	defer f.Close()
 
@@ -717,13 +720,16 @@ func c18ReplayCase(path string) (c c18Case, found bool, _ error) {
 		if i := strings.Index(line, "C18CASE "); i >= 0 {
 			var x c18Case
 			if err := json.Unmarshal([]byte(line[i+len("C18CASE "):]), &x); err == nil {
-				c = x
-				found = true
+				if x.ByHeight == nil {
+					x.ByHeight = map[int]c18Ans{}
+				}
+
+				cs = append(cs, x)
 			}
 		}
 	}
 
-	return c, found, nil
+	return cs, nil
 }
 
 func TestC18(t *testing.T) {
@@ -745,17 +751,21 @@ func TestC18(t *testing.T) {
 	w := c18GetWorld(t)
 
 	if p := os.Getenv("VERIF_REPLAY"); p != "" {
-		c, found, err := c18ReplayCase(p)
-		if err != nil || !found {
+		cs, err := c18ReplayCases(p)
+		if err != nil || len(cs) < 1 {
 			t.Fatalf("replay: no C18CASE line in %s (%v)", p, err)
 		}
 
-		b, _ := json.Marshal(c)
-		r.Journal("C18CASE %s", b)
-		t.Logf("replaying %s", c.fingerprint())
+		for _, c := range cs {
+			b, _ := json.Marshal(c)
+			r.Journal("C18CASE %s", b)
+			t.Logf("replaying %s", c.fingerprint())
 
-		classes, nt := c18Run(t, r, w, c)
-		r.Case(c.fingerprint(), nt, classes...)
+			classes, nt := c18Run(t, r, w, c)
+			r.Case(c.fingerprint(), nt, classes...)
+		}
+
+		time.Sleep(50 * time.Millisecond) // let straggling worker goroutines of a failed Build finish (or panic)
 
 		return
 	}
